@@ -9,8 +9,18 @@ from common import ModelError, R, cfl, fl, max_rel_err
 
 from common import wiring_pre_build as pre_build  # noqa: E402,F401
 
-LEAN_MODULES = ["PyomaVerif.Props.C04", "PyomaVerif.Mutants.C04", "PyomaVerif.Props.WiringRun"]
+LEAN_MODULES = ["PyomaVerif.Props.C04", "PyomaVerif.Mutants.C04", "PyomaVerif.Props.WiringRun", "PyomaVerif.Props.C04C13"]
 THEOREMS = [
+    "PV.C04C13.sdEst_shape",
+    "PV.C04C13.sdEst_pairwise",
+    "PV.C04C13.sdEst_homog",
+    "PV.C04C13.C04_identical_refs_per",
+    "PV.C04C13.C04_identical_refs_cor",
+    "PV.C04C13.C04_gain_sd",
+    "PV.C04C13.C04_gain_per",
+    "PV.C04C13.C04_gain_cor",
+    "PV.C04C13.ex_per_ne",
+    "PV.C04C13.ex_cor_ne",
     # call-site wiring of the class layer, regenerated from /repo on every run (translate_wiring.py)
     "PV.WiringRun.C04_run_spectral_ms",
     "PV.C04.C04_shape",
